@@ -423,6 +423,20 @@ def run_case(ctx, res, env, case, lines, expect, meta, light=False):
         # ---- the command line path (same model line: the model's pipeline *is* the CLI composition)
         if use_cli:
             run_cli(ctx, res, env, case, scr, raw, batch, table, total, allowed, n, orders[-1], lines, expect, meta, ttok, rtok)
+    # ---- requests outside the quantifier that the model also describes: n_chunks = 0 (numpy: ValueError), chunk_index = n_chunks (IndexError)
+    if case.get("edges", False):
+        n = case["ns"][-1]
+        for nn, idx in ((0, 0), (n, n), (n, n + 3)):
+            try:
+                score_chunk(scorer=Scorer(), thetas=None, screen=scr, distance_matrix=None, rng=np.random.default_rng(0),
+                            n_chunks=nn, chunk_index=idx, batch_plate_ids=list(batch))
+                out = "ok (not compared)"
+            except Exception as e:   # noqa: BLE001
+                out = S.err_tok(e)
+            res.count("edges.%s" % out)
+            lines.append("inputs %s %d %d %s" % (ids_tok(batch), nn, idx, rtok))
+            expect.append(out)
+            meta.append(("inputs-edge", dict(case, n=nn, idx=idx)))
     # ---- shipped scorers on the last chunking
     if case.get("shipped", False):
         n = case["ns"][-1]
@@ -619,7 +633,7 @@ def make_case(rng, raw, seed, tier, exhaustive_orders, cli_p, batch=None):
     else:
         ns = list(range(1, nmax + 1))
     return {"raw": raw, "batch": batch, "table": {str(k): enc_score(v) for k, v in table.items()}, "total": total, "allowed": allowed,
-            "ns": ns, "all_orders_upto": exhaustive_orders, "n_orders": 2, "cli": rng.random() < cli_p, "shipped": rng.random() < 0.5, "seed": seed, "stale": True}
+            "ns": ns, "all_orders_upto": exhaustive_orders, "n_orders": 2, "cli": rng.random() < cli_p, "shipped": rng.random() < 0.5, "seed": seed, "stale": True, "edges": seed % 8 == 0}
 
 
 def describe(res, case, cands):
@@ -652,7 +666,7 @@ def run(ctx, res):
                 meta.append(("split", {"len": ln, "n": n}))
         # ---- random cases
         rng = ctx.subrng("c06")
-        n_cases = ctx.scale(260, 1500, 800)
+        n_cases = ctx.scale(260, 1300, 800)
         for t in range(n_cases):
             raw = gen_case(rng, max_plates=7, n_max=14 if ctx.tier == "quick" else 22)
             case = make_case(rng, raw, t, ctx.tier if ctx.mode == "check" else "quick", 3 if ctx.tier == "quick" else 5,
